@@ -64,9 +64,16 @@ SPACES = {
         ("full_3x3_012_A", (3, 3), ("full", (0, 1, 2)), [A]),
         ("full_3x3_02_defaults", (3, 3), ("full", (0, 2)), [DEFAULTS]),
         ("full_2x3_02_product96", (2, 3), ("full", (0, 2)), PRODUCT),
+        # every shape family as HxW and as WxH: rows and columns are not interchangeable in the sweep
+        ("full_3x2_02_product96", (3, 2), ("full", (0, 2)), PRODUCT),
+        ("full_4x2_012_A", (4, 2), ("full", (0, 1, 2)), [A]),
+        ("full_4x2_02_defaults_B", (4, 2), ("full", (0, 2)), [DEFAULTS, B]),
+        ("full_2x4_02_defaults_AB", (2, 4), ("full", (0, 2)), [DEFAULTS, A, B]),
         ("dev_5x5_k2_ABC", (5, 5), ("dev", (-2, 1, 3), 2), [A, B, C]),
         ("dev_6x6_k2_B", (6, 6), ("dev", (-2, 3), 2), [B]),
         ("dev_7x7_k2_A", (7, 7), ("dev", (-2, 3), 2), [A]),
+        ("dev_6x4_k2_B", (6, 4), ("dev", (-2, 3), 2), [B]),
+        ("dev_4x6_k2_C", (4, 6), ("dev", (-2, 3), 2), [C]),
     ],
     "thorough": [
         ("full_3x3_012_A", (3, 3), ("full", (0, 1, 2)), [A]),
